@@ -49,13 +49,18 @@ func c08Defs() []c08Def {
 		return ref.Struct(ref.F{Name: "F", Index: 1, T: t}, ref.F{Name: "Z", Index: 9, T: L(ref.KInt)})
 	}
 	bases := []*ref.T{L(ref.KInt), L(ref.KUint8), L(ref.KBool), L(ref.KFloat32), L(ref.KFloat64), L(ref.KString), L(ref.KBytes), L(ref.KTime), L(ref.KNullString), ref.S0(),
-		raw("complex64"), raw("complex128"), raw("[2]int"), raw("[0]int"), raw("chan int"), raw("func()"), raw("any"), raw("error"), raw("uintptr"), raw("unsafe.Pointer")}
+		raw("complex64"), raw("complex128"), raw("[2]int"), raw("[0]int"), raw("chan int"), raw("func()"), raw("any"), raw("error"), raw("uintptr"), raw("unsafe.Pointer"),
+		// named twins: every rule must follow the kind, not the identity of the unnamed type
+		{K: ref.KInt, Named: "gen.NInt"}, {K: ref.KFloat32, Named: "gen.NFloat32"}, {K: ref.KFloat64, Named: "gen.NFloat64"}, {K: ref.KString, Named: "gen.NString"},
+		{K: ref.KPtr, Named: "gen.NPtrF32", Elem: L(ref.KFloat32)}, {K: ref.KPtr, Named: "gen.NPtrF64", Elem: L(ref.KFloat64)}, {K: ref.KPtr, Named: "gen.NPtrInt", Elem: L(ref.KInt)},
+		{K: ref.KSlice, Named: "gen.NSliceF64", Elem: L(ref.KFloat64)}, {K: ref.KSlice, Named: "gen.NSliceStr", Elem: L(ref.KString)}, {K: ref.KMap, Named: "gen.NMapSI", Key: L(ref.KString), Elem: L(ref.KInt)}}
 	for _, x := range bases {
 		shapes := []*ref.T{x, ref.Ptr(x), ref.Ptr(ref.Ptr(x)), {K: ref.KSlice, Elem: x}, {K: ref.KSlice, Elem: ref.Ptr(x)}, {K: ref.KSlice, Elem: &ref.T{K: ref.KSlice, Elem: x}},
 			ref.Map(L(ref.KString), x), ref.Map(L(ref.KString), ref.Ptr(x)), ref.Map(L(ref.KString), &ref.T{K: ref.KSlice, Elem: x}),
 			ref.Map(L(ref.KString), ref.Map(L(ref.KString), x)), ref.Ptr(ref.Map(L(ref.KString), x)), {K: ref.KSlice, Elem: ref.Map(L(ref.KString), x)},
 			ref.Struct(ref.F{Name: "In", Index: 1, T: x}), {K: ref.KSlice, Elem: ref.Struct(ref.F{Name: "In", Index: 1, T: x})},
 			{K: ref.KSlice, Elem: &ref.T{K: ref.KSlice, Elem: &ref.T{K: ref.KSlice, Elem: x}}},
+			{K: ref.KSlice, Elem: ref.Ptr(ref.Ptr(x))}, {K: ref.KSlice, Elem: ref.Ptr(&ref.T{K: ref.KSlice, Elem: x})},
 			ref.Map(L(ref.KInt), ref.Struct(ref.F{Name: "M", Index: 1, T: ref.Map(L(ref.KString), x)}))}
 		if x.Comparable() {
 			shapes = append(shapes, ref.Map(x, L(ref.KInt)), ref.Map(ref.Struct(ref.F{Name: "K", Index: 1, T: x}), L(ref.KInt)), ref.Map(ref.Ptr(x), L(ref.KInt)))
